@@ -41,6 +41,8 @@ PINS.update({
     "where JVP": ("C05", ["regress/C05/where-jvp-mixed.json"]),
 })
 PINS["select returns numpy"] = ("C06", ["regress/C06/select-mixed-dtype.json"])
+PINS["gradient of x[list_of_bools]"] = ("C11", ["regress/C11/bool-list-index.json"])
+PINS["indexed and dense contributions to a 0-d"] = ("C11", ["regress/C11/rank0-sparse-dense.json"])
 EXTRA = {}
 
 
